@@ -2,7 +2,7 @@
 (* Validation of system traces recorded from a real primary and real replicas (C13 system clause, C14, C15).
    The harness logs, in the order of its single driver:
      reset | w(op) wret | flush | join | rrestart | cwr(refused) | s(st, x, rep) | quiesce | conv(pst) | noconv
-     fault(mode) | inv(op) ret(op) | hang(op) | topo(dropped) | hconv(ok) | error
+     fault(mode) | inv(op) ret(op) | hang(op) | topo(dropped) | hconv(ok) | end | error
    w is logged BEFORE the primary call (primary order = order of w events: one driver), s is one atomic sample of the
    replica's whole state (st), the number of keys outside the model (x) and the applied sequence number the replica
    reported just before the scan (rep).
@@ -75,7 +75,7 @@ TConv == /\ Ev("conv") /\ lo = Len(ents)
          /\ UNCHANGED <<ents, nseq, base, lo, rep, wr, stalled>>
 
 (* C15 *)
-TFault == /\ Ev("fault") /\ stalled' = stalled + (IF Trace[l].mode = "norecv" THEN 1 ELSE 0)
+TFault == /\ Ev("fault") /\ wr = 0 /\ stalled' = stalled + (IF Trace[l].mode = "norecv" THEN 1 ELSE 0)
           /\ UNCHANGED <<ents, nseq, base, lo, rep, wr>>
 TInv == Ev("inv") /\ wr = 0 /\ wr' = 1 /\ UNCHANGED <<ents, nseq, base, lo, rep, stalled>>
 TRet == Ev("ret") /\ wr = 1 /\ wr' = 0 /\ UNCHANGED <<ents, nseq, base, lo, rep, stalled>>
@@ -83,15 +83,17 @@ TRet == Ev("ret") /\ wr = 1 /\ wr' = 0 /\ UNCHANGED <<ents, nseq, base, lo, rep,
 \* primary operation does not return (stream.Send inside the log append path, under the storage write lock)
 THangStalled == /\ KF_StallBlocksWrite /\ Ev("hang") /\ wr = 1 /\ stalled > 0
                 /\ UNCHANGED <<ents, nseq, base, lo, rep, wr, stalled>>
-TTopo == Ev("topo") /\ Trace[l].dropped /\ UNCHANGED <<ents, nseq, base, lo, rep, wr, stalled>>
+TTopo == Ev("topo") /\ wr = 0 /\ Trace[l].dropped /\ UNCHANGED <<ents, nseq, base, lo, rep, wr, stalled>>
 \* KNOWN FINDING KF_C15_stalled_reader_not_dropped: the session's activity time-stamp is refreshed by the primary's own
 \* (buffered) sends, so a client that never reads is never timed out
 TTopoStalledStays == /\ KF_StallNotDropped /\ Ev("topo") /\ ~Trace[l].dropped /\ stalled > 0
                      /\ UNCHANGED <<ents, nseq, base, lo, rep, wr, stalled>>
-THConv == Ev("hconv") /\ Trace[l].ok /\ UNCHANGED <<ents, nseq, base, lo, rep, wr, stalled>>
+THConv == Ev("hconv") /\ wr = 0 /\ Trace[l].ok /\ UNCHANGED <<ents, nseq, base, lo, rep, wr, stalled>>
+\* normal end of a fault scenario: nothing is outstanding
+TEnd == Ev("end") /\ wr = 0 /\ UNCHANGED <<ents, nseq, base, lo, rep, wr, stalled>>
 
 TNext == TReset \/ TW \/ TWRet \/ TPlain \/ TRestart \/ TRestartFromOne \/ TCwr \/ TSample \/ TQuiesce \/ TConv
-         \/ TFault \/ TInv \/ TRet \/ THangStalled \/ TTopo \/ TTopoStalledStays \/ THConv
+         \/ TFault \/ TInv \/ TRet \/ THangStalled \/ TTopo \/ TTopoStalledStays \/ THConv \/ TEnd
 TSpec == TInit /\ [][TNext]_tvars
 
 HighWater == IF l > TLCGet(1) THEN TLCSet(1, l) ELSE TRUE
